@@ -598,6 +598,23 @@ class TimeSensitiveDensityEstimator(BaseEstimator):
         log_density_func.n_obs = compute_average_cell_count(x, normalize)
         self.log_density_func = log_density_func
 
+    def _check_bound_times(self, times):
+        """
+        A model that is bound to data keeps the time points of that data: time points passed
+        without cell states must be the bound ones, otherwise they are refused.
+        """
+        if times is None or self.x is None:
+            return
+        times = validate_array(times, "times", ndim=(1, 2)).reshape(-1)
+        bound = self.x[:, -1]
+        if times.shape != bound.shape or not bool((times == bound).all()):
+            message = (
+                "self.x has been set already, but its time points are not equal to the argument times."
+            )
+            error = ValueError(message)
+            logger.error(error)
+            raise error
+
     def prepare_inference(self, x, times=None):
         R"""
         Prepares for optimization without performing Bayesian inference.
@@ -626,6 +643,7 @@ class TimeSensitiveDensityEstimator(BaseEstimator):
         """
 
         if x is None:
+            self._check_bound_times(times)
             x = self.x
             if self.x is None:
                 message = "Required argument x is missing and self.x has not been set."
@@ -775,6 +793,8 @@ class TimeSensitiveDensityEstimator(BaseEstimator):
         """
         if x is not None:
             x = validate_time_x(x, times)
+        else:
+            self._check_bound_times(times)
         if self.x is not None and x is not None and self.x is not x:
             message = "self.x has been set already, but is not equal to the argument x."
             error = ValueError(message)
